@@ -15,9 +15,13 @@
 (* shape / result types / named pre-assigned results.                        *)
 EXTENDS Integers, Sequences, FiniteSets, TLC, VerifIO
 
-CONSTANTS Positions,   \* subset of {"stmt","assign","arg","nested","closure","method"}
+CONSTANTS Positions,   \* subset of {"stmt","assign","arg","nested","closure","method","lambda"}
+                       \*   lambda = statement in a lambda literal that is an argument of an OVERLOADED function whose
+                       \*   second candidate matches (the compiler compiles the lambda body once per candidate tried)
           RTypes,      \* types of the enclosing function's first result: subset of {"int","string","ptr","slice","struct"}
-          CalleeForms  \* subset of {"call","ident"}: g1(fail)  vs  command-style  h1  (no parentheses)
+          CalleeForms, \* subset of {"call","ident","cmd"}: g1(fail) | command-style h1 (no arguments) | command-style
+                       \*   with arguments  g1! fail  (the operator sits between callee and arguments; means (g1 fail)!)
+          Layouts      \* subset of {"one","multi"}: call on one line | arguments spread over three lines, operator last
 
 Ops == {"!", "?", "?:"}
 
@@ -28,10 +32,13 @@ Legal(c) ==
    /\ (c.pos = "nested" => c.nv = 1)
    /\ (c.op = "?" => c.enc \in 1..3) /\ (c.op # "?" => c.enc = 0)
    /\ (c.enc <= 1 => c.rt = "int")                    \* no first result to vary
-   /\ (c.named => c.op = "?" /\ c.pos # "closure")
+   /\ (c.named => c.op = "?" /\ c.pos \notin {"closure", "lambda"})
+   /\ (c.cf = "cmd" => c.pos \in {"stmt", "lambda"} /\ c.op \in {"!", "?"})   \* a command is a statement
+   /\ (c.pos = "lambda" /\ c.op = "?" => c.enc = 1)                           \* the lambda returns just an error
+   /\ (c.lay = "multi" => c.cf = "call")
 
 Cases == { c \in [nv : 0..2, fail : BOOLEAN, op : Ops, pos : Positions, cf : CalleeForms,
-                  enc : 0..3, rt : RTypes, named : BOOLEAN] : Legal(c) }
+                  enc : 0..3, rt : RTypes, named : BOOLEAN, lay : Layouts] : Legal(c) }
 
 \* ---- values (as the generated program prints them) ---------------------------
 Good(nv)  == SubSeq(<<"7", "'s'">>, 1, nv)           \* callee results when it succeeds
@@ -56,59 +63,66 @@ VARIABLES c,        \* the case
           outcome,  \* "none" | "normal" | "reterr" | "panic"
           rets,     \* results of the enclosing function (without error)
           reterr,   \* "nil" | "boom"  error result of the enclosing function / panic value identity
-          results   \* current contents of the enclosing function's named results
-vars == <<c, pc, calls, log, res, yield, seen, outcome, rets, reterr, results>>
+          results,  \* current contents of the enclosing function's named results
+          fline     \* line the error frame names, relative to the first line of the wrapped expression (-1: no frame)
+vars == <<c, pc, calls, log, res, yield, seen, outcome, rets, reterr, results, fline>>
+
+\* source lines of the wrapped expression, relative to its first line
+ExprFirstLine == 0
+OperatorLine == IF c.lay = "multi" THEN 2 ELSE 0
 
 Init == /\ c \in Cases
         /\ pc = "enter" /\ calls = 0 /\ log = <<>> /\ res = [vals |-> <<>>, err |-> "nil"]
         /\ yield = <<>> /\ seen = <<>> /\ outcome = "none" /\ rets = <<>> /\ reterr = "nil"
-        /\ results = <<>>
+        /\ results = <<>> /\ fline = 0 - 1
 
 \* the enclosing function starts; named results may already hold non-zero values
 Enter == /\ pc = "enter" /\ pc' = "call"
          /\ results' = IF c.named THEN NormalRets(c) ELSE ZeroRets(c)
-         /\ UNCHANGED <<c, calls, log, res, yield, seen, outcome, rets, reterr>>
+         /\ UNCHANGED <<c, calls, log, res, yield, seen, outcome, rets, reterr, fline>>
 \* the wrapped call is evaluated -- exactly here, exactly once
 CallCallee == /\ pc = "call" /\ pc' = "test"
               /\ calls' = calls + 1 /\ log' = Append(log, "g")
               /\ res' = IF c.fail THEN [vals |-> Junk(c.nv), err |-> "boom"]
                                   ELSE [vals |-> Good(c.nv), err |-> "nil"]
-              /\ UNCHANGED <<c, yield, seen, outcome, rets, reterr, results>>
+              /\ UNCHANGED <<c, yield, seen, outcome, rets, reterr, results, fline>>
 \* error is nil: the expression yields the values
 ErrNil == /\ pc = "test" /\ res.err = "nil" /\ pc' = "use"
           /\ yield' = res.vals
-          /\ UNCHANGED <<c, calls, log, res, seen, outcome, rets, reterr, results>>
+          /\ UNCHANGED <<c, calls, log, res, seen, outcome, rets, reterr, results, fline>>
 \* expr! : panic with the error (wrapped in a frame naming the source expression; identity kept)
 ErrPanic == /\ pc = "test" /\ res.err # "nil" /\ c.op = "!" /\ pc' = "unwound"
             /\ outcome' = "panic" /\ reterr' = res.err
+            /\ fline' = ExprFirstLine                    \* the frame is the SOURCE frame of the wrapped expression
             /\ UNCHANGED <<c, calls, log, res, yield, seen, rets, results>>
 \* expr? : the (innermost) enclosing function returns zero values and the error
 ErrReturn == /\ pc = "test" /\ res.err # "nil" /\ c.op = "?" /\ pc' = "returned"
              /\ outcome' = "reterr" /\ rets' = ZeroRets(c) /\ reterr' = res.err
+             /\ fline' = ExprFirstLine
              /\ UNCHANGED <<c, calls, log, res, yield, seen, results>>
 \* expr?:d : d is evaluated now (and only now); the expression yields d
 ErrDefault == /\ pc = "test" /\ res.err # "nil" /\ c.op = "?:" /\ pc' = "use"
               /\ log' = Append(log, "d") /\ yield' = DefaultV
-              /\ UNCHANGED <<c, calls, res, seen, outcome, rets, reterr, results>>
+              /\ UNCHANGED <<c, calls, res, seen, outcome, rets, reterr, results, fline>>
 \* the use position consumes the value(s); the next statement runs
 Use == /\ pc = "use" /\ pc' = "tail"
        /\ seen' = IF c.pos = "nested" THEN Plus100(yield)
-                  ELSE IF c.pos = "stmt" \/ (c.pos \in {"closure", "method"} /\ c.nv = 0) THEN <<>>
+                  ELSE IF c.pos \in {"stmt", "lambda"} \/ (c.pos \in {"closure", "method"} /\ c.nv = 0) THEN <<>>
                   ELSE yield
        /\ log' = Append(log, "after")
-       /\ UNCHANGED <<c, calls, res, yield, outcome, rets, reterr, results>>
+       /\ UNCHANGED <<c, calls, res, yield, outcome, rets, reterr, results, fline>>
 ReturnNormal == /\ pc = "tail" /\ pc' = "returned"
                 /\ outcome' = "normal" /\ rets' = NormalRets(c) /\ reterr' = "nil"
-                /\ UNCHANGED <<c, calls, log, res, yield, seen, results>>
+                /\ UNCHANGED <<c, calls, log, res, yield, seen, results, fline>>
 \* a function literal returned (normally or through ?): the code after it runs
-OuterContinues == /\ pc = "returned" /\ c.pos = "closure" /\ pc' = "outer"
+OuterContinues == /\ pc = "returned" /\ c.pos \in {"closure", "lambda"} /\ pc' = "outer"
                   /\ log' = Append(log, "outer")
-                  /\ UNCHANGED <<c, calls, res, yield, seen, outcome, rets, reterr, results>>
-Finish == /\ \/ pc = "returned" /\ c.pos # "closure"
+                  /\ UNCHANGED <<c, calls, res, yield, seen, outcome, rets, reterr, results, fline>>
+Finish == /\ \/ pc = "returned" /\ c.pos \notin {"closure", "lambda"}
              \/ pc = "outer"
              \/ pc = "unwound"
           /\ pc' = "done"
-          /\ UNCHANGED <<c, calls, log, res, yield, seen, outcome, rets, reterr, results>>
+          /\ UNCHANGED <<c, calls, log, res, yield, seen, outcome, rets, reterr, results, fline>>
 
 Next == Enter \/ CallCallee \/ ErrNil \/ ErrPanic \/ ErrReturn \/ ErrDefault \/ Use
         \/ ReturnNormal \/ OuterContinues \/ Finish
@@ -125,16 +139,20 @@ PanicOnErr  == pc = "done" /\ c.fail /\ c.op = "!" => outcome = "panic" /\ reter
 ReturnOnErr == pc = "done" /\ c.fail /\ c.op = "?" =>
                   /\ outcome = "reterr" /\ reterr = "boom" /\ ~In("after", log)
                   /\ rets = ZeroRets(c)                               \* zero values, whatever the named results held
-                  /\ (c.pos = "closure" => In("outer", log))          \* only the innermost function returns
+                  /\ (c.pos \in {"closure", "lambda"} => In("outer", log))   \* only the innermost function returns
 DefaultOnErr == pc = "done" /\ c.op = "?:" =>
                   /\ outcome = "normal" /\ In("after", log)
                   /\ (In("d", log) <=> c.fail)                        \* d is evaluated only on error
                   /\ yield = (IF c.fail THEN DefaultV ELSE Good(1))
+\* the frame of an error names the line where the wrapped expression STARTS, not where the operator stands
+FrameLine == pc = "done" => IF outcome \in {"panic", "reterr"}
+                            THEN fline = ExprFirstLine /\ (c.lay = "multi" => fline # OperatorLine)
+                            ELSE fline = 0 - 1
 NeverJunk == \A j \in 1..Len(seen) : seen[j] \notin {"99", "'zz'", "199"}
 Terminates == <>(pc = "done")
 
 Export == pc = "done" =>
    Emit([nv |-> c.nv, fail |-> c.fail, op |-> c.op, pos |-> c.pos, cf |-> c.cf, enc |-> c.enc, rt |-> c.rt,
          named |-> c.named, outcome |-> outcome, seen |-> seen, rets |-> rets, reterr |-> reterr,
-         log |-> log, calls |-> calls])
+         log |-> log, calls |-> calls, lay |-> c.lay, fline |-> fline])
 =============================================================================
